@@ -376,7 +376,8 @@ Definition term_scroll (tm : term) (r : rect) (down rightw : Z) : term * bool :=
 Definition term_resize (tm : term) (nl nc : Z) : term :=
   mkTerm nl nc
          (fun q => if term_inb tm q && (fst q <? nl) && (snd q <? nc) then t_grid tm q else BLANK)
-         (t_cvis tm) (t_cline tm) (t_ccol tm) (t_cshape tm) (t_cblink tm) (t_nreq tm) (t_oracle tm).
+         (t_cvis tm) (Z.max 0 (Z.min (t_cline tm) (nl - 1))) (Z.max 0 (Z.min (t_ccol tm) (nc - 1)))
+         (t_cshape tm) (t_cblink tm) (t_nreq tm) (t_oracle tm).
 
 (* some scroll oracles *)
 Definition pol_accept : nat -> Z -> Z -> rect -> Z -> Z -> bool := fun _ _ _ _ _ _ => true.
@@ -676,6 +677,15 @@ Fixpoint focus_gained (cfg : defects) (chain : list Z) (child : option Z) (tree 
         | Some fc, None => if d_focus_nolost cfg then (tree, []) else t_at focus_lost fc tree
         | None, _ => (tree, [])
         end in
+      (* the focus moves on to a descendant: this window no longer holds it (repair of #19) *)
+      let '(tree1, ev1b) :=
+        match child with
+        | Some _ =>
+          if w_focused i && negb (d_focus_nolost cfg)
+          then (t_update (fun j => set_focused j false) w tree1, [(w, false, w)])
+          else (tree1, [])
+        | None => (tree1, [])
+        end in
       let '(tree2, ev2, rs) :=
         match rest with
         | [] => (tree1, [], true)
@@ -689,7 +699,7 @@ Fixpoint focus_gained (cfg : defects) (chain : list Z) (child : option Z) (tree 
       let tree3 :=
         t_update (fun j => set_fchild (match child with None => set_focused j true | Some _ => j end) child)
                  w tree2 in
-      (tree3, ev1 ++ ev2 ++ ev3, rs)
+      (tree3, ev1 ++ ev1b ++ ev2 ++ ev3, rs)
     end
   end.
 
